@@ -294,3 +294,96 @@ func tailStr(s string, n int) string {
 	}
 	return s
 }
+
+// ---- descriptor growth: more files in one transfer than a process may hold open ----
+
+func init() { groups["e2e-fds"] = genFds }
+
+func countFds(pid int) int {
+	dir := "/proc/self/fd"
+	if pid > 0 {
+		dir = fmt.Sprintf("/proc/%d/fd", pid)
+	}
+	ents, err := os.ReadDir(dir)
+	if err != nil {
+		return -1
+	}
+	return len(ents)
+}
+
+func genFds(c *ctx) {
+	work, _ := os.MkdirTemp("", "e2e_fds_")
+	defer os.RemoveAll(work)
+	nfiles := c.pick(150, 600)
+	type fdCase struct {
+		name      string
+		upload    bool
+		directory bool
+	}
+	cases := []fdCase{
+		{"upload-flat", true, false}, {"download-flat", false, false},
+		{"upload-dir-archive", true, true}, {"download-dir-archive", false, true},
+	}
+	for i, fc := range cases {
+		root := filepath.Join(work, fmt.Sprint(i))
+		dest := filepath.Join(root, "dest")
+		os.MkdirAll(dest, 0755)
+		var tops []string
+		if fc.directory {
+			d := filepath.Join(root, "s", "many")
+			os.MkdirAll(d, 0755)
+			for j := 0; j < nfiles; j++ {
+				os.WriteFile(filepath.Join(d, fmt.Sprintf("f%04d", j)), []byte(fmt.Sprint(j)), 0644)
+			}
+			tops = []string{d}
+		} else {
+			os.MkdirAll(filepath.Join(root, "s"), 0755)
+			for j := 0; j < nfiles; j++ {
+				p := filepath.Join(root, "s", fmt.Sprintf("f%04d", j))
+				os.WriteFile(p, []byte(fmt.Sprint(j)), 0644)
+				tops = append(tops, p)
+			}
+		}
+		base := countFds(0)
+		var peakSelf, peakChild int
+		stop := make(chan struct{})
+		var run *e2eRun
+		cfg := e2eCfg{upload: fc.upload, directory: fc.directory, timeout: 10, proto: -1, quiet: true, deadline: 120 * time.Second,
+			onStart: func(r *e2eRun) { run = r }}
+		done := make(chan struct{})
+		go func() {
+			defer close(done)
+			for {
+				select {
+				case <-stop:
+					return
+				default:
+				}
+				if n := countFds(0); n > peakSelf {
+					peakSelf = n
+				}
+				if r := run; r != nil && r.cmd.Process != nil {
+					if n := countFds(r.cmd.Process.Pid); n > peakChild {
+						peakChild = n
+					}
+				}
+				time.Sleep(500 * time.Microsecond)
+			}
+		}()
+		res := runTransfer(cfg, tops, dest)
+		close(stop)
+		<-done
+		grow := peakSelf - base
+		c.note(true, fmt.Sprintf("fds %s files=%d client-growth=%d server-peak=%d ok=%v", fc.name, nfiles, grow, peakChild, !res.hung))
+		c.count("fds:" + fc.name)
+		limit := 40
+		if grow > limit || peakChild > limit {
+			c.violate("fd-growth:"+fc.name, "open descriptors grow with the number of files in one transfer",
+				fmt.Sprintf("%s files=%d: client descriptors grew by %d (baseline %d), server peak %d; bound %d", fc.name, nfiles, grow, base, peakChild, limit))
+		}
+		if res.hung || !res.clientDone {
+			c.violate("fd-run-failed:"+fc.name, "many-file transfer did not complete", tailStr(res.termOut+res.serverOut, 300))
+		}
+		os.RemoveAll(root)
+	}
+}
